@@ -29,13 +29,19 @@ def run(ctx, col, tier):
              "reads, at the row's parent, an array it fills in that loop (such code is right only "
              "when parents are numbered before children); zero expected, positive examples kept",
              floor=1)
+    col.rule("R-MEMO", "no observable is memoised on the tree / node / path object: outside construction and setters no method of a "
+             "geometry-carrying class stores to self (copies are deep and coordinates are overwritten in place, so a kept value goes stale); "
+             "zero expected, the lint's positive examples are those of the transform-state lint", floor=1)
     col.not_decided += ["floating-point rounding of rotated coordinates", "independence from the "
                         "order of siblings (bifurcation torque uses the stored child order)",
                         "width / height / depth (axis aligned by definition, not in the property)"]
     col.assumptions += ["numpy operations keep the geometric kind as tabulated in sa/geo.py"]
     geo, res = geosinks.check_sinks(ctx, col, "R-GEO")
-    geosinks.report(col, "R-GEO", res)
+    geosinks.report(col, "R-GEO", res, repo=ctx.repo)
     col.analysed["geo_summaries"] = len(geo.memo)
+    from ..rules import stateless
+    stateless.check_memo(ctx, col, "R-MEMO", ("swcgeom.core.tree", "swcgeom.core.path", "swcgeom.core.node", "swcgeom.core.branch",
+                                              "swcgeom.core.compartment", "swcgeom.core.branch_tree", "swcgeom.core.swc", "swcgeom.core.segment"))
     col.guard(centring, ctx, col, geo)
     col.guard(numbering, ctx, col)
 
